@@ -116,3 +116,18 @@ theorem addDirectional_eq (P D nIn B W T : Nat) (energy_0 : Nat → Nat → ℝ)
   Sparrow.addDirectional_eq P D nIn B W T energy_0 src pc wall sources receivers scat sidx vis F area att s0 s1 s2 s3 s4 s5 i d b hi
 
 end Sparrow.Props.C14.BakeKernels
+
+namespace Sparrow.Props.C14.ReceiverIndex
+open Sparrow Sparrow.Generated.BakeKernels
+
+/-- `get_scattering_data_receiver_index` as translated: for every patch `i` the outgoing sample of
+    ITS wall nearest to the direction from its centre to the point `pt` (used for the
+    patch-to-patch slot in `bake_geometry` and for the slot towards a receiver). -/
+theorem getScatteringDataReceiverIndex_eq (P W D : Nat) (pc : Nat → Nat → ℝ) (pt : Nat → ℝ)
+    (receivers : Nat → Nat → Nat → ℝ) (wall : Nat → Nat) (s0 : Nat) (i : Nat) (hi : i < P) :
+    getScatteringDataReceiverIndex P 3 pc 3 pt W D 3 receivers s0 wall i =
+      nearest (fun k => ⟨receivers (wall i) k 0, receivers (wall i) k 1, receivers (wall i) k 2⟩) D
+        (Vec3.normalize (Vec3.sub ⟨pt 0, pt 1, pt 2⟩ ⟨pc i 0, pc i 1, pc i 2⟩)) :=
+  Sparrow.getScatteringDataReceiverIndex_eq P W D pc pt receivers wall s0 i hi
+
+end Sparrow.Props.C14.ReceiverIndex
